@@ -41,11 +41,12 @@ const prop = "C20"
 var outerT *testing.T
 
 func TestMain(m *testing.M) {
-	core.DeclareFaults("rng-short-read", "maybe-read-byte", "id-collision-scripted", "id-collision-deleted-scripted")
+	requireCustomRand()
+	core.DeclareFaults("rng-short-read", "maybe-read-byte", "id-collision-scripted", "id-collision-deleted-scripted", "forced-scalar-rejection")
 	core.DeclareProbes("redraw-on-collision", "scripted-fresh-id", "raw-key-id-draw", "same-message-signed-twice", "second-primitive-same-key",
 		"second-handle-same-key", "subtle-constructor", "writer-repeat-on-primitive", "interleaved-keys", "full-sweep", "edge-position",
 		"field-delivered-by-short-reads", "ecdh-recompute-x25519", "ecdh-recompute-nist", "p521-masked-byte-flipped", "mlkem-consecutive",
-		"xwing-both-halves", "ecies-dem-iv", "ecies-compressed-point", "pss-auto-salt", "composite-two-draws", "keygen-symmetric-copy",
+		"xwing-both-halves", "ecies-dem-iv", "ecies-compressed-point", "composite-two-draws", "surplus-bytes-not-judged", "keygen-symmetric-copy",
 		"keygen-asymmetric-copy", "keygen-asymmetric-fn", "keygen-nonrandomized-type", "pooled-key", "jwt-signature",
 		"kms-envelope-fresh-dek", "manager-delete", "manager-setprimary", "manager-disable-enable", "add-after-delete", "mldsa-prehash-signer", "output-verified")
 	if core.Thorough() {
@@ -81,9 +82,58 @@ type shortReader struct {
 	g     *simrng.RNG
 	max   int
 	fired int
+	// forced-rejection fault: when armed, the next 32- or 48-byte request gets a
+	// leading pattern that makes a P-256 / P-384 scalar candidate ≥ N (so the
+	// stdlib's rejection sampling loops once). The overridden stream bytes are
+	// kept by offset, so re-runs of the call and the harness's view of the
+	// issued bytes see the same values.
+	armed  bool
+	forced map[uint64]byte // stream offset → XOR mask (composes with the byte-flip perturbation of re-runs)
+	nForce int
+}
+
+// rejectPattern: leading bytes that, after the stdlib's key[1] ^= 0x42, read
+// FF FF FF FF … — above the order of P-256 (FFFFFFFF 00000000 …) as soon as
+// four bytes are FF and the next word is not zero, above P-384's after 25.
+func rejectPattern(n int) []byte {
+	k := 0
+	switch n {
+	case 32:
+		k = 4
+	case 48:
+		k = 25
+	default:
+		return nil
+	}
+	b := bytes.Repeat([]byte{0xff}, k)
+	b[1] = 0xbd
+	return b
 }
 
 func (s *shortReader) Read(p []byte) (int, error) {
+	off := s.g.Offset(0)
+	scripted := len(p) == 4 && s.g.ScriptLen() > 0
+	if s.armed && !scripted {
+		if pat := rejectPattern(len(p)); pat != nil {
+			s.armed = false
+			s.nForce++
+			for i, b := range pat {
+				s.forced[off+uint64(i)] = b ^ s.g.ByteAt(0, off+uint64(i))
+			}
+		}
+	}
+	n, err := s.read(p)
+	if len(s.forced) > 0 && n > 1 && !scripted {
+		for i := 0; i < n; i++ {
+			if m, ok := s.forced[off+uint64(i)]; ok {
+				p[i] ^= m
+			}
+		}
+	}
+	return n, err
+}
+
+func (s *shortReader) read(p []byte) (int, error) {
 	n := len(p)
 	if s.max > 0 && n > s.max && n > 2 && !(n == 4 && s.g.ScriptLen() > 0) {
 		m := s.max
@@ -155,6 +205,11 @@ func buildLists() {
 				cheapSym = append(cheapSym, e)
 			}
 			if !e.Randomized {
+				continue
+			}
+			if catalog.Quirk(e) != "" {
+				// rsassapss with SaltLengthBytes 0: C20 speaks of "RSA-PSS with salt"; outside the statement
+				core.CountGlobal("producing-entries-skipped-for-quirk")
 				continue
 			}
 			switch e.Class {
@@ -253,6 +308,7 @@ type win struct {
 	data       []byte // the issued bytes, unperturbed
 	scripted   int    // scripted 4-byte reads served during the call
 	short      bool   // a short read was served during the call
+	forced     bool   // the forced-rejection pattern was planted into a read of this call
 }
 
 // bracket runs one call of tink and returns its consumption window.
@@ -260,7 +316,7 @@ func (w *world) bracket(where string, f func()) win {
 	g := w.g
 	g.Mark++
 	g.Log = g.Log[:0]
-	start, sl, ob, sf := g.Offset(0), g.ScriptServed, g.OneByteReads, w.sr.fired
+	start, sl, ob, sf, nf := g.Offset(0), g.ScriptServed, g.OneByteReads, w.sr.fired, w.sr.nForce
 	func() {
 		defer w.catch(where)
 		f()
@@ -284,6 +340,13 @@ func (w *world) bracket(where string, f func()) win {
 	}
 	w.lastEnd = end
 	wn := win{start: start, end: end, data: g.Bytes(0, start, int(end-start)), scripted: g.ScriptServed - sl, short: w.sr.fired > sf}
+	for i := range wn.data {
+		if m, ok := w.sr.forced[start+uint64(i)]; ok {
+			wn.data[i] ^= m
+		}
+	}
+	wn.forced = w.sr.nForce > nf
+	w.sr.armed = false
 	if g.OneByteReads > ob {
 		// whether the stdlib's MaybeReadByte coin fires is decided by a runtime select: counted, but kept
 		// out of the run signature and the digest
@@ -296,6 +359,12 @@ func (w *world) bracket(where string, f func()) win {
 	w.calls++
 	w.r.ObsI(where+" consumed", int64(len(wn.data)))
 	return wn
+}
+
+// armRejection draws whether the next 32/48-byte request of the coming call
+// gets the forced-rejection pattern.
+func (w *world) armRejection() {
+	w.sr.armed = rapid.SampledFrom([]bool{false, false, false, false, false, false, false, true}).Draw(w.t, "forceRejection")
 }
 
 // rerun executes f on the identical stream with byte j of the window flipped.
@@ -321,6 +390,8 @@ type fnSpec struct {
 	cost  int
 	probe string
 	skip  bool // consumption is still checked, the re-runs are not made (economy on slow keys)
+	head  int  // live bytes drawn before the rejection-sampled part of the window (key-ID bytes of a key generation)
+	all   bool // flip every live position
 	// changed re-runs the call with byte j flipped and reports whether the
 	// random-dependent output field for position j differs from the original.
 	changed func(j int) bool
@@ -333,11 +404,14 @@ type fnSpec struct {
 // its hedged DRBG (crypto/internal/fips140/ecdsa.Sign), PSS hashes the whole
 // salt, ML-DSA/SLH-DSA absorb rnd/addrnd, X25519 clamping and the P-521 mask
 // (key[0] &= 1) keep at least one bit of every byte, so XOR 0xFF always
-// changes the scalar. Only bytes of a *rejected* candidate (scalar ≥ N,
-// probability < 2^-32 per call on every NIST curve) are dead, and then the
-// call has consumed a whole extra block. Hence: with T bytes consumed and L
-// the scheme's length, at most T-L of the flipped positions may leave the
-// output unchanged (0 when T == L), and never all of them.
+// changes the scalar. Only bytes of a *rejected* scalar candidate (≥ N,
+// probability < 2^-32 per draw on every NIST curve) are dead, and then the
+// call has consumed whole extra blocks: with T bytes consumed and L the
+// scheme's length, the window is head ‖ (T-L surplus bytes) ‖ last L-head
+// bytes, where head are the bytes drawn before the rejection-sampled part
+// (the 4 key-ID bytes of a key generation). Only the L live positions are
+// flipped and judged, and every one of them must change the output; the
+// surplus bytes (rejected candidates) are never judged.
 func (w *world) sensitivity(wn win, s fnSpec) {
 	T := len(wn.data)
 	if T < s.need.min {
@@ -351,15 +425,27 @@ func (w *world) sensitivity(wn win, s fnSpec) {
 	if !s.need.exact {
 		L = T
 	}
-	tol := T - L
+	surplus := T - L
+	head := s.head
+	if head > L {
+		head = L
+	}
+	live := func(i int) int { // i-th live position → window position
+		if i < head {
+			return i
+		}
+		return i + surplus
+	}
 	var pos []int
 	mode := "sample"
-	if s.cost == 0 && T <= 80 {
+	if s.all {
+		mode = "all"
+	} else if s.cost == 0 && L <= 80 {
 		mode = rapid.SampledFrom([]string{"sample", "sample", "sample", "all"}).Draw(w.t, "fnMode")
 	}
 	if mode == "all" {
-		for j := 0; j < T; j++ {
-			pos = append(pos, j)
+		for i := 0; i < L; i++ {
+			pos = append(pos, live(i))
 		}
 		w.r.Probe("full-sweep")
 	} else {
@@ -373,18 +459,18 @@ func (w *world) sensitivity(wn win, s fnSpec) {
 			k = rapid.IntRange(2, 3).Draw(w.t, "fnCount")
 		}
 		for i := 0; i < k; i++ {
-			switch rapid.SampledFrom([]string{"any", "any", "any", "first", "last", "lastNeeded"}).Draw(w.t, "fnPosKind") {
+			switch rapid.SampledFrom([]string{"any", "any", "any", "first", "last", "firstAfterHead"}).Draw(w.t, "fnPosKind") {
 			case "first":
-				pos = append(pos, 0)
+				pos = append(pos, live(0))
 				w.r.Probe("edge-position")
 			case "last":
-				pos = append(pos, T-1)
+				pos = append(pos, live(L-1))
 				w.r.Probe("edge-position")
-			case "lastNeeded":
-				pos = append(pos, L-1)
+			case "firstAfterHead":
+				pos = append(pos, live(head%L))
 				w.r.Probe("edge-position")
 			default:
-				pos = append(pos, rapid.IntRange(0, T-1).Draw(w.t, "fnPos"))
+				pos = append(pos, live(rapid.IntRange(0, L-1).Draw(w.t, "fnPos")))
 			}
 		}
 	}
@@ -398,10 +484,13 @@ func (w *world) sensitivity(wn win, s fnSpec) {
 	if s.probe != "" {
 		w.r.Probe(s.probe)
 	}
-	if w.r.Tracing() {
-		w.r.Logf("  fn %s: flipped %v of %d consumed bytes, output unchanged at %v (allowed %d)", s.loc, pos, T, dead, tol)
+	if surplus > 0 {
+		w.r.Probe("surplus-bytes-not-judged")
 	}
-	if len(dead) > tol || len(dead) == len(pos) {
+	if w.r.Tracing() {
+		w.r.Logf("  fn %s: flipped %v of %d consumed bytes (%d surplus, not judged), output unchanged at %v", s.loc, pos, T, surplus, dead)
+	}
+	if len(dead) > 0 {
 		w.r.Violation("C20/insensitive:"+s.loc, fmt.Sprintf("flipping consumed byte(s) %v (of %d consumed, scheme needs %d) left the output unchanged; flipped %v", dead, T, s.need.min, pos))
 	}
 }
@@ -440,6 +529,13 @@ func newKeyVia(e catalog.Entry) (uint32, key.Key, error) {
 	}
 	return id, ent.Key(), nil
 }
+
+// idIs: the ID is the 32-bit value of the four issued bytes, in either byte order.
+func idIs(id uint32, b []byte) bool {
+	return binary.BigEndian.Uint32(b) == id || binary.LittleEndian.Uint32(b) == id
+}
+
+func bswap(v uint32) uint32 { return v<<24 | (v&0xff00)<<8 | (v>>8)&0xff00 | v>>24 }
 
 func entryLoc(e catalog.Entry) string { return string(e.Class) + "/" + e.KeyType }
 
@@ -491,6 +587,7 @@ func (w *world) genKey(e catalog.Entry) key.Key {
 	var id uint32
 	var k key.Key
 	var err error
+	w.armRejection()
 	wn := w.bracket(loc+".keygen", func() { id, k, err = newKeyVia(e) })
 	r.Logf("keygen %s -> id=%08x %s, consumed %d", e.Name, id, describe(err), len(wn.data))
 	if err != nil || k == nil {
@@ -498,7 +595,7 @@ func (w *world) genKey(e catalog.Entry) key.Key {
 		return nil
 	}
 	T := len(wn.data)
-	if T < 4 || binary.BigEndian.Uint32(wn.data[:4]) != id {
+	if T < 4 || !idIs(id, wn.data[:4]) {
 		r.Violation("C20/keyid-not-from-rng", fmt.Sprintf("fresh manager returned key ID %08x; the call issued %s", id, core.Hex(wn.data, 16)))
 		return nil
 	}
@@ -541,7 +638,15 @@ func (w *world) genKey(e catalog.Entry) key.Key {
 		if bits := rsaModulusBits(e); bits != 0 || e.RSABased() {
 			w.rsaKeygen(e, loc, wn, id, k, secrets)
 		} else {
-			w.sensitivity(wn, fnSpec{loc: loc + ".keygen", need: randNeed{4 + need, true}, cost: e.Cost, probe: "keygen-asymmetric-fn",
+			head := 4
+			if e.KeyType == "compositemldsa" {
+				head += 32 // the ML-DSA seed is drawn before the classical key
+			}
+			if wn.forced && T > 4+need {
+				r.Fault("forced-scalar-rejection")
+				w.faults["rejection"] = true
+			}
+			w.sensitivity(wn, fnSpec{loc: loc + ".keygen", need: randNeed{4 + need, true}, cost: e.Cost, probe: "keygen-asymmetric-fn", head: head,
 				changed: func(j int) bool {
 					var id2 uint32
 					var k2 key.Key
@@ -634,7 +739,7 @@ func (w *world) wrap(ks *keyState) *keyset.Handle {
 		w.t.Fatalf("harness: cannot wrap %s into a handle: %v", ks.e.Name, err)
 	}
 	if _, has := ks.k.IDRequirement(); !has {
-		if len(wn.data) < 4 || binary.BigEndian.Uint32(wn.data[:4]) != id {
+		if len(wn.data) < 4 || !idIs(id, wn.data[:4]) {
 			w.r.Violation("C20/keyid-not-from-rng", fmt.Sprintf("AddKey of a key without ID requirement returned %08x; the call issued %s", id, core.Hex(wn.data, 16)))
 		}
 		w.r.Probe("raw-key-id-draw")
@@ -728,24 +833,37 @@ func (w *world) mgrAdd() {
 		r.Violation("C20/call-failed:keyset.Manager.Add", fmt.Sprintf("%s: %v", e.Name, err))
 		return
 	}
-	// what a manager that re-draws until the ID is unused must return
-	var exp uint32
-	ok, collisions, goneCollisions, off := false, 0, 0, 0
-	for _, v := range vals {
-		if !w.used[v] {
-			exp, ok = v, true
-			break
+	// what a manager that re-draws until the ID is unused must return, reading
+	// its four bytes big-endian (what tink does) or little-endian (equally fine)
+	walk := func(le bool) (exp uint32, ok bool, collisions, goneCollisions, off int) {
+		for _, v := range vals {
+			if le {
+				v = bswap(v)
+			}
+			if !w.used[v] {
+				return v, true, collisions, goneCollisions, 0
+			}
+			collisions++
+			if w.mgrGone[v] {
+				goneCollisions++
+			}
 		}
-		collisions++
-		if w.mgrGone[v] {
-			goneCollisions++
+		for off+4 <= len(wn.data) {
+			v := binary.BigEndian.Uint32(wn.data[off : off+4])
+			if le {
+				v = bswap(v)
+			}
+			off += 4
+			if !w.used[v] {
+				return v, true, collisions, goneCollisions, off
+			}
 		}
+		return 0, false, collisions, goneCollisions, off
 	}
-	for !ok && off+4 <= len(wn.data) {
-		v := binary.BigEndian.Uint32(wn.data[off : off+4])
-		off += 4
-		if !w.used[v] {
-			exp, ok = v, true
+	exp, ok, collisions, goneCollisions, off := walk(false)
+	if !ok || exp != id {
+		if e2, ok2, c2, g2, o2 := walk(true); ok2 && e2 == id {
+			exp, ok, collisions, goneCollisions, off = e2, ok2, c2, g2, o2
 		}
 	}
 	if collisions > 0 {
@@ -967,6 +1085,7 @@ func (w *world) produce(ki int) {
 	var out []byte
 	var err error
 	call := func() { out, err = p.produce(msg, aad) }
+	w.armRejection()
 	wn := w.bracket(loc, call)
 	ks.calls++
 	if ks.e.Cost == 2 {
@@ -1110,27 +1229,21 @@ func (w *world) produce(ki int) {
 		if kem.curve != nil {
 			got := enc[kem.ecOff : kem.ecOff+kem.ecLen]
 			want, rejected, perr := expectedPoint(kem, wn.data)
-			if perr != nil || !bytes.Equal(got, want) {
-				r.Violation("C20/ecdh-mismatch:"+loc, fmt.Sprintf("%s: encapsulated public value %s is not the one crypto/ecdh derives from the issued bytes %s (%v)", ks.e.Name, core.Hex(got, 24), core.Hex(wn.data, 24), perr))
-				return
-			}
-			w.oracles["ecdh"] = true
-			if kem.format == "raw" {
-				r.Probe("ecdh-recompute-x25519")
-			} else {
-				r.Probe("ecdh-recompute-nist")
-			}
-			if kem.format == "compressed" {
-				r.Probe("ecies-compressed-point")
-			}
-			if kem.mlkem > 0 {
-				r.Probe("xwing-both-halves")
-			}
+			// A different public value than crypto/ecdh derives from the issued bytes is
+			// a violation only if the value is also not a function of every issued byte:
+			// an implementation mapping the bytes to a scalar in another way still
+			// satisfies C20. So on a mismatch every live position is flipped.
+			mismatch := perr != nil || !bytes.Equal(got, want)
 			if rejected > 0 {
 				r.Count("nist-scalar-candidates-rejected", int64(rejected))
+				if wn.forced {
+					r.Fault("forced-scalar-rejection")
+					w.faults["rejection"] = true
+				}
 			}
 			kemBytes := T - kem.demIV
-			w.sensitivity(wn, fnSpec{loc: loc, need: randNeed{kem.randLen + kem.demIV, true}, cost: ks.e.Cost, skip: ks.fnSkip(),
+			skip := ks.fnSkip()
+			w.sensitivity(wn, fnSpec{loc: loc, need: randNeed{kem.randLen + kem.demIV, true}, cost: ks.e.Cost, skip: skip && !mismatch, all: mismatch,
 				changed: func(j int) bool {
 					o := rerunOut(j)
 					if len(o) != len(orig) {
@@ -1144,6 +1257,23 @@ func (w *world) produce(ki int) {
 					}
 					return !bytes.Equal(o, orig)
 				}})
+			if mismatch {
+				r.Count("ecdh-mismatch-but-every-byte-matters", 1)
+				r.Logf("  %s: public value differs from crypto/ecdh's derivation (%v) but depends on every issued byte: accepted", loc, perr)
+			} else {
+				w.oracles["ecdh"] = true
+				if kem.format == "raw" {
+					r.Probe("ecdh-recompute-x25519")
+				} else {
+					r.Probe("ecdh-recompute-nist")
+				}
+				if kem.format == "compressed" {
+					r.Probe("ecies-compressed-point")
+				}
+				if kem.mlkem > 0 {
+					r.Probe("xwing-both-halves")
+				}
+			}
 		}
 
 	case catalog.Signature, catalog.JWTSignature:
@@ -1171,9 +1301,6 @@ func (w *world) produce(ki int) {
 		ks.sigs[mk] = append(ks.sigs[mk], orig)
 		if ks.e.Class == catalog.JWTSignature {
 			r.Probe("jwt-signature")
-		}
-		if !need.exact {
-			r.Probe("pss-auto-salt")
 		}
 		if ks.e.KeyType == "compositemldsa" && len(wn.data) > 32 {
 			r.Probe("composite-two-draws")
@@ -1257,7 +1384,7 @@ func run(t *rapid.T) {
 	g.LogOn = true
 	// stdlib-internal randomness (ML-KEM encapsulation, Miller-Rabin bases) becomes a function of the run, too
 	cryptotest.SetGlobalRandom(outerT, rapid.Uint64().Draw(t, "globalSeed"))
-	sr := &shortReader{g: g, max: rapid.SampledFrom([]int{0, 0, 0, 7, 5, 3, 2, 4, 6, 1}).Draw(t, "shortMax")}
+	sr := &shortReader{g: g, forced: map[uint64]byte{}, max: rapid.SampledFrom([]int{0, 0, 0, 7, 5, 3, 2, 4, 6, 1}).Draw(t, "shortMax")}
 	old := rand.Reader
 	rand.Reader = sr
 	defer func() { rand.Reader = old }()
